@@ -11,6 +11,11 @@ EOF_M = 'EOF'
 TIMEOUT_M = 'TIMEOUT'
 
 
+class DeadlineTie(BaseException):
+    """a scripted arrival falls on the deadline itself (to within rounding): whether the reader still gets it depends
+    on how the two sides add up their floating point times, not on the subject - the history is not judged further"""
+
+
 class Hang(Exception):
     """timeout=None and the script has nothing more to deliver."""
 
